@@ -1289,6 +1289,13 @@ func (w *world) scripted(prop string, sc int, rng *mrand.Rand) {
 		}
 		rs := w.randomReqSpec(rng, "C15")
 		rs.method = "GET"
+		if sc%4 != 3 { // headers in which proxies pass on paths, prefixes and URLs: whatever the code does with them, the post-login redirect stays on the request's own origin
+			names := append([]string{"X-Forwarded-Prefix", "X-Forwarded-Uri", "X-Forwarded-Path", "X-Original-URI", "X-Original-URL", "X-Rewrite-URL", "X-Replaced-Path", "Referer", "X-Forwarded-Server", "Forwarded"}, dictHeaderNames()...)
+			vals := []string{"/./\\evil.test", "/app/../\\evil.test", "/\t/evil.test", "//evil.test", "/\\evil.test", "https://evil.test", "/app", "app", "/./%5Cevil.test", "evil.test", "for=1.2.3.4;host=evil.test;proto=https"}
+			for i := 0; i < 1+rng.Intn(3); i++ {
+				rs.hdrs = append(rs.hdrs, [2]string{names[(sc/4+i*7)%len(names)], vals[(sc/4*3+i+rng.Intn(2))%len(vals)]})
+			}
+		}
 		rs.note = "initiate from an odd URI"
 		obs := w.visit(u, rs)
 		if obs != nil && obs["class"] == "redirectAuth" {
